@@ -1157,6 +1157,8 @@ def run_suffix(ctx, fam):
         pops = vlib.tlc_enum(ctx, 'SortPrims.tla', 'SortPrims_genT.cfg' if t else 'SortPrims_gen.cfg', timeout=2400)
         scripts += chunk_suffix(pops, 'sortprim-enum', 2000, ['tlc-enum', 'sortprim'])
         log('[C09] the whole rank sort (TrSortImpl.tla: trSort / trIntroSort / trPartition / trPivot / budget transcribed; TrSortMC: every small rank string x size threshold)')
+        if t:
+            vlib.tlc_mc(ctx, 'TrSortMC.tla', 'TrSortMC_T.cfg', workers='16', timeout=3000)
         sops = vlib.tlc_enum(ctx, 'TrSortMC.tla', 'TrSortMC_genT.cfg' if t else 'TrSortMC_gen.cfg', timeout=3000)
         scripts += chunk_suffix(sops, 'trsort-enum', 1000, ['tlc-enum', 'trsort'])
         fam = dict(fam, _drift=trcopy_drift)
